@@ -228,5 +228,6 @@ theorem body_safe (C : Covers) (R : Refines) (i : Input) : Safe (body i) := by
   | datetime dt => exact Safe.ok _
   | other => exact Safe.ok _
   | time H M S us => exact Safe.ok _
+  | strSub s => exact Safe.ok _
 
 end Iso
